@@ -178,6 +178,15 @@ def rule_scaler(ctx: Ctx) -> List[Ob]:
         v = st.value if isinstance(st, ast.Assign) else None
         if isinstance(v, ast.Call) and isinstance(v.func, ast.Name) and v.func.id == "gradient_scaler":
             return "scaler"
+        if isinstance(v, ast.Name):
+            # a local bound (only) to the scaler's result
+            try:
+                vals = mm.rd.value_exprs(mm.cfg.node_of(st), v.id)
+            except Exception:
+                vals = []
+            if vals and all(x is not None and isinstance(x, ast.Call) and isinstance(x.func, ast.Name) and x.func.id == "gradient_scaler"
+                            for _, x, _ in vals):
+                return "scaler"
         if v is not None and any(isinstance(x, ast.Name) and x.id == "checkpoint" for x in ast.walk(v)):
             return "restore"
         return "other"
@@ -228,11 +237,25 @@ def rule_units(ctx: Ctx) -> List[Ob]:
     FAC = "$factor"
     MODE: List[bool] = []      # [True] while analysing the paths without a checkpoint, [False] with one
 
-    def times_factor(v: Optional[ast.expr], name: str) -> bool:
-        return isinstance(v, ast.BinOp) and isinstance(v.op, ast.Mult) and {src(v.left), src(v.right)} == {name, fac}
+    def times_factor(v: Optional[ast.expr], name: str, st=None) -> bool:
+        if not (isinstance(v, ast.BinOp) and isinstance(v.op, ast.Mult)):
+            return False
+        if {src(v.left), src(v.right)} == {name, fac}:
+            return True
+        if st is not None:
+            for a, b in ((v.left, v.right), (v.right, v.left)):
+                if src(a) == name and is_fac(b, st):
+                    return True
+        return False
 
     def cur(st) -> str:
         return st.get(FAC, ONE)
+
+    def is_fac(e: ast.expr, st) -> bool:
+        """the wrapper's factor, or a local name bound to it since the factor was last written"""
+        if src(e) == fac:
+            return True
+        return isinstance(e, ast.Name) and st.get(e.id) == ("FACTOR-ALIAS", cur(st))
 
     def scaled_now(st) -> str:
         return RAW if cur(st) == ONE else S(cur(st))
@@ -255,19 +278,21 @@ def rule_units(ctx: Ctx) -> List[Ob]:
             return S(CK) if e.attr in ("fun", "jac") else RAW
         if isinstance(e, ast.Name):
             return st.get(e.id, "?")
-        if isinstance(e, ast.BinOp) and isinstance(e.op, ast.Div) and src(e.right) == fac:
+        if isinstance(e, ast.BinOp) and isinstance(e.op, ast.Div) and is_fac(e.right, st):
             u = unit_of(e.left, st)
             if u == S(cur(st)) or (u == RAW and cur(st) == ONE):
                 return RAW
             return MIXED
-        if isinstance(e, ast.BinOp) and isinstance(e.op, ast.Mult) and fac in (src(e.left), src(e.right)):
-            other = e.left if src(e.right) == fac else e.right
+        if isinstance(e, ast.BinOp) and isinstance(e.op, ast.Mult) and (is_fac(e.left, st) or is_fac(e.right, st)):
+            other = e.left if is_fac(e.right, st) else e.right
             u = unit_of(other, st)
             return scaled_now(st) if u == RAW else DOUBLE
         return "?"
 
-    def fac_source(v: Optional[ast.expr]) -> str:
+    def fac_source(v: Optional[ast.expr], st=None) -> str:
         if isinstance(v, ast.Call) and isinstance(v.func, ast.Name) and v.func.id == "gradient_scaler":
+            return SC
+        if isinstance(v, ast.Name) and st is not None and st.get(v.id) == ("SCALER-VALUE",):
             return SC
         if v is not None and any(isinstance(x, ast.Name) and x.id == "checkpoint" for x in ast.walk(v)):
             return CK
@@ -281,20 +306,31 @@ def rule_units(ctx: Ctx) -> List[Ob]:
         s = n.ast
         for k, v, how in defs:
             if k == fac:
-                out[FAC] = fac_source(v)
+                out[FAC] = fac_source(v, st)
+                if isinstance(v, ast.Name) and st.get(v.id) == ("SCALER-VALUE",):
+                    out[v.id] = ("FACTOR-ALIAS", SC)      # the local now equals the wrapper's factor
                 continue
             if "." in k:
                 continue
             if how == "aug":
-                if isinstance(s, ast.AugAssign) and isinstance(s.op, ast.Mult) and src(s.value) == fac:
+                if isinstance(s, ast.AugAssign) and isinstance(s.op, ast.Mult) and is_fac(s.value, st):
                     # the unit of what is being scaled is reported at the statement (obligation below); afterwards
                     # the value counts as scaled so that one cause gives one report
                     out[k] = scaled_now(st) if not n.loops else DOUBLE
-                elif isinstance(s, ast.AugAssign) and isinstance(s.op, ast.Div) and src(s.value) == fac:
+                elif isinstance(s, ast.AugAssign) and isinstance(s.op, ast.Div) and is_fac(s.value, st):
                     out[k] = RAW if st.get(k) in (S(cur(st)), RAW) else MIXED
                 continue
             if v is None:
                 out.pop(k, None)
+                continue
+            if src(v) == fac:
+                out[k] = ("FACTOR-ALIAS", cur(st))
+                continue
+            if isinstance(v, ast.Call) and isinstance(v.func, ast.Name) and v.func.id == "gradient_scaler":
+                out[k] = ("SCALER-VALUE",)
+                continue
+            if isinstance(v, ast.Name) and isinstance(st.get(v.id), tuple):
+                out[k] = st[v.id]
                 continue
             if isinstance(v, ast.Call) and (dotted(v.func) or "") in (f"{sf}.fun", f"{sf}.grad", f"{sf}.fun_and_grad"):
                 out[k] = scaled_now(st)
@@ -307,7 +343,7 @@ def rule_units(ctx: Ctx) -> List[Ob]:
                     out[k] = unit_of(arg, st) if arg is not None else "?"
             else:
                 u = unit_of(v, st)
-                if times_factor(v, k) and not n.loops:
+                if times_factor(v, k, st) and not n.loops:
                     u = scaled_now(st)
                 if u != "?":
                     out[k] = u
@@ -326,7 +362,12 @@ def rule_units(ctx: Ctx) -> List[Ob]:
                 out[FAC] = x if x == y else (y if x == ONE else x if y == ONE else MIXED)
                 continue
             if k in a and k in b:
-                out[k] = a[k] if a[k] == b[k] else MIXED
+                if a[k] == b[k]:
+                    out[k] = a[k]
+                elif isinstance(a[k], tuple) and isinstance(b[k], tuple) and ONE in (a[k][1], b[k][1]):
+                    out[k] = a[k] if b[k][1] == ONE else b[k]      # a factor of 1 is a special case of any factor
+                else:
+                    out[k] = MIXED
             else:
                 out[k] = MIXED
         # RAW on the branch where the factor is still 1 is SCALED[f] with f = 1
@@ -357,7 +398,7 @@ def rule_units(ctx: Ctx) -> List[Ob]:
         IN, OUT = forward(cfg, {}, transfer, join, refine, follow_exc=False)
         # scaling statements
         scal = [n for n in cfg.nodes if n in IN for k, v, how in node_defs(n)
-                if k in (fn_, gn) and ((how == "aug" and isinstance(n.ast, ast.AugAssign) and src(n.ast.value) == fac) or times_factor(v, k))]
+                if k in (fn_, gn) and ((how == "aug" and isinstance(n.ast, ast.AugAssign) and is_fac(n.ast.value, IN[n])) or times_factor(v, k, IN[n]))]
         for k in (fn_, gn):
             mine = [n for n in scal if any(kk == k for kk, _, _ in node_defs(n))]
             if ck_none:
@@ -460,7 +501,8 @@ def rule_diag(ctx: Ctx) -> List[Ob]:
     ok = False
     why = "no statement `out[i] = product[i]`"
     if ext is not None and vname is not None:
-        prod = ext.value.value
+        from ..flow import Expander
+        prod = Expander(ctx, f).expand_at(ext, ext.value.value)
         isprod = (isinstance(prod, ast.Call) and isinstance(prod.func, ast.Attribute) and prod.func.attr in ("matvec", "dot", "_matvec")
                   and src(prod.func.value) == hp and [src(a) for a in prod.args] == [vname]) or \
                  (isinstance(prod, ast.BinOp) and isinstance(prod.op, ast.MatMult) and src(prod.left) == hp and src(prod.right) == vname)
@@ -504,12 +546,53 @@ def rule_scalepos(ctx: Ctx) -> List[Ob]:
     return obs
 
 
+def factor_valued_names(f) -> Set[str]:
+    """local names of function f that only ever hold the wrapper's scaling factor: every binding is a read of
+    `<sf>.scaling_factor`, the value returned by gradient_scaler(...), or another such name"""
+    def is_attr(e) -> bool:
+        return isinstance(e, ast.Attribute) and e.attr == "scaling_factor"
+    assigns: Dict[str, List[Optional[ast.expr]]] = {}
+    for s_ in walk_no_nested(f.node):
+        if isinstance(s_, (ast.Assign, ast.AnnAssign)) and getattr(s_, "value", None) is not None:
+            for t in (s_.targets if isinstance(s_, ast.Assign) else [s_.target]):
+                if isinstance(t, ast.Name):
+                    assigns.setdefault(t.id, []).append(s_.value)
+                elif isinstance(t, (ast.Tuple, ast.List)):
+                    for e_ in ast.walk(t):
+                        if isinstance(e_, ast.Name):
+                            assigns.setdefault(e_.id, []).append(None)
+        elif isinstance(s_, (ast.AugAssign, ast.For)):
+            for e_ in ast.walk(s_.target):
+                if isinstance(e_, ast.Name):
+                    assigns.setdefault(e_.id, []).append(None)
+        elif isinstance(s_, ast.With):
+            for i_ in s_.items:
+                if i_.optional_vars is not None:
+                    for e_ in ast.walk(i_.optional_vars):
+                        if isinstance(e_, ast.Name):
+                            assigns.setdefault(e_.id, []).append(None)
+    FV: Set[str] = set()
+    changed = True
+    while changed:
+        changed = False
+        for nm, vals in assigns.items():
+            if nm in FV or nm in f.params:
+                continue
+            if vals and all(v is not None and (is_attr(v) or (isinstance(v, ast.Name) and v.id in FV) or
+                                               (isinstance(v, ast.Call) and isinstance(v.func, ast.Name) and v.func.id == "gradient_scaler"))
+                            for v in vals):
+                FV.add(nm)
+                changed = True
+    return FV
+
+
 @rule("SCALEUSE", min_instances=5)
 def rule_scaleuse(ctx: Ctx) -> List[Ob]:
     """who-may-read the scaling factor: a scaler run equals the run on s*f exactly when s enters the solver only
     through the values f and g (the wrapper's accessors, the one initial scaling of f0 and grad) and through the
     un-scaling of the value compared with the target; every other use (step caps, theta, tolerances, ...) has no
-    counterpart in the explicitly scaled run, where the factor is 1"""
+    counterpart in the explicitly scaled run, where the factor is 1.  Local names that hold the factor (a copy of
+    sf.scaling_factor, the value returned by the scaler) are followed."""
     obs: List[Ob] = []
     for q, f in ctx.repo.funcs.items():
         if q.startswith("scalar_function.ScalarFunction"):
@@ -518,6 +601,11 @@ def rule_scaleuse(ctx: Ctx) -> List[Ob]:
         for p_ in ast.walk(f.node):
             for ch in ast.iter_child_nodes(p_):
                 parents[ch] = p_
+
+        def is_attr(e) -> bool:
+            return isinstance(e, ast.Attribute) and e.attr == "scaling_factor"
+
+        FV = factor_valued_names(f)
 
         def classify(e):
             chain = [e]
@@ -543,27 +631,21 @@ def rule_scaleuse(ctx: Ctx) -> List[Ob]:
                 return st, "recorded in a result, next to the values it scaled"
             if isinstance(st, (ast.Assign, ast.AnnAssign)) and st.value is e:
                 tg = st.targets[0] if isinstance(st, ast.Assign) and len(st.targets) == 1 else getattr(st, "target", None)
-                if isinstance(tg, ast.Name):
-                    return st, f"alias:{tg.id}"
+                if isinstance(tg, ast.Name) and tg.id in FV:
+                    return st, f"copied into the local `{tg.id}`, whose uses are classified like the factor"
+                if is_attr(tg) and isinstance(e, ast.Name):
+                    return st, "stored as the wrapper's factor (SCALER governs this write)"
+            if isinstance(st, ast.Return) and st.value is e and f.qual not in ("main.minimize_lbfgsb",):
+                return st, None
             return st, None
 
-        work = [e for e in walk_no_nested(f.node) if isinstance(e, ast.Attribute) and e.attr == "scaling_factor" and not isinstance(e.ctx, ast.Store)]
-        seen_alias: Set[str] = set()
-        while work:
-            e = work.pop(0)
+        occ = [e for e in walk_no_nested(f.node) if is_attr(e) and not isinstance(e.ctx, ast.Store)] + \
+              [e for e in walk_no_nested(f.node) if isinstance(e, ast.Name) and e.id in FV and isinstance(e.ctx, ast.Load)]
+        for e in occ:
             st, role = classify(e)
-            if role and role.startswith("alias:"):
-                nm = role[6:]
-                if nm not in seen_alias:
-                    seen_alias.add(nm)
-                    ndefs = sum(1 for x in walk_no_nested(f.node) if isinstance(x, ast.Name) and x.id == nm and isinstance(x.ctx, ast.Store))
-                    if ndefs == 1:
-                        work += [x for x in walk_no_nested(f.node) if isinstance(x, ast.Name) and x.id == nm and isinstance(x.ctx, ast.Load)]
-                        role = f"local name for the factor ({nm}); its uses are classified like the factor"
-                    else:
-                        role = None
             ok = role is not None
             obs.append(ob("SCALEUSE", "the scaling factor is used only to scale f, g once and to un-scale the target test", f, e, ok,
                           role if ok else f"`{short(st, 90)}` uses the factor for something else: the run on the explicitly scaled objective (factor 1) has no counterpart",
                           construct=f"{f.qual}: {short(st, 70)}"))
     return obs
+
